@@ -249,12 +249,17 @@ def analyze(ctx, want):
             a0, a1 = c[3][0], c[3][1]
             l0 = a0[1][1][2] if a0[0] == "ref" and a0[1][1][0] == "local" else None
             l1 = a1[1][1][2] if a1[0] == "ref" and a1[1][1][0] == "local" else None
-            ok = mn.names().get(l0) == "partition_old" and mn.names().get(l1) == "transitions"
-            ob("C03.e", "each-round-refines-the-previous-partition", ok, "calculate_new_partition(%s, %s)" % (mn.names().get(l0), mn.names().get(l1)), mn.loc(c[1]))
+            # the second argument is the function's only transition map (by type, not by name); that the first one is the
+            # partition the result is compared with is part of the fixpoint rule above
+            tmaps = [i_ for i_, l_ in enumerate(mn.j["locals"]) if l_["ty"].startswith("std::collections::BTreeMap<internal::ids::StateID, std::collections::BTreeMap<") and i_ in mn.names()]
+            ok = l1 is not None and tmaps == [l1] and l0 is not None and "BTreeSet<internal::ids::StateID>" in mn.j["locals"][l0]["ty"]
+            ob("C03.e", "each-round-refines-a-partition-with-the-full-transition-map", ok, "calculate_new_partition(%s, %s); transition maps in minimize: %s" % (mn.names().get(l0), mn.names().get(l1), [mn.names().get(t_) for t_ in tmaps]), mn.loc(c[1]))
     # transition map built from all transitions of all states
     for c in F.closures_of(mn):
         its = [M.call_name(t) for bb, t in c.calls(ADAPTERS)]
         ob("C03.c", "transition-map-covers-all-transitions", not its, "adapters in the map-building closure: %s" % its, c.loc())
+    its = [M.short_name(M.call_name(t)) for bb, t in mn.calls(ADAPTERS)]
+    ob("C03.c", "transition-map-covers-all-states", not its, "adapters on the state list in minimize: %s" % its, mn.loc())
 
     # ---- C03.f/g/h quotient -----------------------------------------------------------------------
     cp = F.fn(r"Minimizer::create_from_partition$")
